@@ -276,6 +276,38 @@ def ob_sample_shape_helpers():
     return Ob("C10.sample_shape.helpers", "V", body, clause="sample-shape inference", funcs=FUNCS)
 
 
+def ob_hierarchical_distribution():
+    """a Distribution whose x AND parameters carry the sample dimension (hierarchical prior with sampled hyper-parameters):
+    value for sample s must be the density of x[s] under the parameters' s-th slice, and a joint must not add samples up"""
+    def body():
+        from torchtree.core.parameter import Parameter
+        from torchtree.distributions.distributions import Distribution
+        from torchtree.distributions.joint_distribution import JointDistributionModel
+        x = Parameter("x", torch.tensor([[0.1], [0.5], [0.9]], dtype=torch.float64))
+        mu = Parameter("mu", torch.tensor([[0.0], [1.0], [2.0]], dtype=torch.float64))
+        d = Distribution("d", torch.distributions.Normal, x, {"loc": mu, "scale": Parameter("sd", torch.ones(1, dtype=torch.float64))})
+        want = [float(torch.distributions.Normal(mu.tensor[s], 1.0).log_prob(x.tensor[s])) for s in range(3)]
+        try:
+            got = JointDistributionModel("j", [d])()
+        except Exception as e:
+            return {"backend": "concrete", "statement": "unsupported combination raises (%s)" % type(e).__name__}
+        if tuple(got.shape) != (3,) or any(abs(float(got[s]) - want[s]) > 1e-12 for s in range(3)):
+            raise Refuted("Distribution with x [3,1] and loc [3,1]: sample_shape is %s and the joint returns %s (shape %s) instead of one value per sample %s"
+                          % (tuple(d.sample_shape), got.tolist() if got.dim() else float(got), tuple(got.shape), want),
+                          witness={"sample_shape": list(d.sample_shape), "joint": got.tolist() if got.dim() else float(got), "per_sample": want},
+                          replay={"kind": "custom", "contract": "C10", "func": "replay_hierarchical", "args": {}}, confirmed=True)
+        return {"backend": "concrete", "statement": "one value per sample"}
+    return Ob("C10.sample_shape.hierarchical[Distribution,x and loc batched]", "V", body, clause="sample-shape inference: x and parameters both batched", funcs=FUNCS)
+
+
+def replay_hierarchical(args):
+    try:
+        ob_hierarchical_distribution().fn()
+    except Refuted as e:
+        return False, e.detail
+    return True, "held"
+
+
 def obligations(tier, seed):
     obs = []
     R = (2, 3) if tier == "quick" else (1, 2, 3, 4, 5)
@@ -334,4 +366,5 @@ def obligations(tier, seed):
             obs.append(scenario_ob("C10", "C10.joint[sample=%s,components=%s]" % (b, cs), "V", "scn_joint", (b, cs),
                                    clause="joint adds components of the same sample only", funcs=FUNCS, seed=seed))
     obs.append(ob_sample_shape_helpers())
+    obs.append(ob_hierarchical_distribution())
     return obs
